@@ -55,7 +55,7 @@ static void gen_model(Draw &d, Case &c) {
   s.mag = (int)d.pick<int>({-9, -6, -3, 0, 0, 3, 6, 9});
   s.scaling = s.mag == 0 ? (int)d.i(-1, 3) : (int)d.i(-1, 0);    // small/large magnitudes only with options that have no zero guard
   if (s.kind == 2 && s.scaling < 0) s.scaling = 0;
-  s.ncomp = (int)d.i(1, 2);
+  s.ncomp = std::min((int)d.i(1, 3), s.p);     // up to 3 components: tensors with a third block (block scores of CPCA, per-LV tables of PLS)
   V sp = gen_ratio_spectrum(d, std::min(s.n - 1, s.p * (s.kind == 2 ? 2 : 1)), 0.2, 0.8);
   M X = gen_lowrank(d, s.n, s.p * (s.kind == 2 ? 2 : 1), sp, (double)s.mag, false);
   if (s.mag == 0) enforce_scale_domain(X, s.scaling);
